@@ -1,0 +1,77 @@
+//go:build verif
+// +build verif
+
+package sm2
+
+import "math/big"
+
+// Hooks for the verification harness (build tag "verif" only): the 9-limb Montgomery field arithmetic of
+// p256.go on plain values.
+
+func VerifP256Add(a, b [9]uint32) [9]uint32 {
+	var c sm2P256FieldElement
+	x, y := sm2P256FieldElement(a), sm2P256FieldElement(b)
+	sm2P256Add(&c, &x, &y)
+	return [9]uint32(c)
+}
+
+func VerifP256Sub(a, b [9]uint32) [9]uint32 {
+	var c sm2P256FieldElement
+	x, y := sm2P256FieldElement(a), sm2P256FieldElement(b)
+	sm2P256Sub(&c, &x, &y)
+	return [9]uint32(c)
+}
+
+func VerifP256Mul(a, b [9]uint32) [9]uint32 {
+	var c sm2P256FieldElement
+	x, y := sm2P256FieldElement(a), sm2P256FieldElement(b)
+	sm2P256Mul(&c, &x, &y)
+	return [9]uint32(c)
+}
+
+func VerifP256Square(a [9]uint32) [9]uint32 {
+	var c sm2P256FieldElement
+	x := sm2P256FieldElement(a)
+	sm2P256Square(&c, &x)
+	return [9]uint32(c)
+}
+
+func VerifP256ReduceCarry(a [9]uint32, carry uint32) [9]uint32 {
+	x := sm2P256FieldElement(a)
+	sm2P256ReduceCarry(&x, carry)
+	return [9]uint32(x)
+}
+
+func VerifP256ReduceDegree(b [17]uint64) [9]uint32 {
+	var c sm2P256FieldElement
+	x := sm2P256LargeFieldElement(b)
+	sm2P256ReduceDegree(&c, &x)
+	return [9]uint32(c)
+}
+
+func VerifP256FromBig(a *big.Int) [9]uint32 {
+	P256Sm2() // sm2P256.P is initialised lazily
+	var c sm2P256FieldElement
+	sm2P256FromBig(&c, new(big.Int).Set(a))
+	return [9]uint32(c)
+}
+
+func VerifP256ToBig(a [9]uint32) *big.Int {
+	P256Sm2()
+	x := sm2P256FieldElement(a)
+	return sm2P256ToBig(&x)
+}
+
+func VerifP256Scalar(a [9]uint32, k int) [9]uint32 {
+	x := sm2P256FieldElement(a)
+	sm2P256Scalar(&x, k)
+	return [9]uint32(x)
+}
+
+func VerifP256CopyConditional(out, in [9]uint32, mask uint32) [9]uint32 {
+	x, y := sm2P256FieldElement(out), sm2P256FieldElement(in)
+	sm2P256CopyConditional(&x, &y, mask)
+	return [9]uint32(x)
+}
+
+func VerifNonZeroToAllOnes(x uint32) uint32 { return nonZeroToAllOnes(x) }
